@@ -804,6 +804,13 @@ class Dataset(AutoSerialize):
         if not isinstance(index, tuple):
             index = (index,)
 
+        # NumPy puts the axis of a list/array index FIRST when it is separated from another advanced
+        # (integer or list) index by a slice or an Ellipsis; remember that, so the calibration follows the data
+        adv_pos = [i for i, idx in enumerate(index) if idx is not Ellipsis and not isinstance(idx, slice)]
+        adv_moved_first = any(
+            isinstance(idx, (list, np.ndarray)) for idx in index if idx is not Ellipsis
+        ) and adv_pos != list(range(adv_pos[0], adv_pos[-1] + 1))
+
         # Expand Ellipsis
         if Ellipsis in index:
             ellipsis_pos = index.index(Ellipsis)
@@ -816,6 +823,8 @@ class Dataset(AutoSerialize):
 
         # Compute which dimensions are kept
         kept_axes = [i for i, idx in enumerate(index) if not isinstance(idx, (int, np.integer))]
+        if adv_moved_first:
+            kept_axes.sort(key=lambda i: not isinstance(index[i], (list, np.ndarray)))
 
         # Slice/reduce metadata accordingly
         new_origin = (
